@@ -223,6 +223,15 @@ def run(repo, rep, tier):
     loops = [n for n in body_walk(mrg) if isinstance(n, ast.For)]
     ok = len(loops) == 2 and U(loops[0].target).replace(" ", "").strip("()") == "row,cells" and U(loops[1].target).replace(" ", "").strip("()") == "col,cell"
     rep.ob("C12.R5", mrg, "Table.merge_ranges: (row, col) from enumerate order", ok, "", key="C12.R5@merge_ranges:axes")
+    grid_loops = [n for n in body_walk(mrg) if isinstance(n, ast.For) and "self._data" in U(n.iter)]
+    rets = [n for n in body_walk(mrg) if isinstance(n, ast.Return)]
+    ok = bool(grid_loops) and bool(rets) and all(cfgmod.dominates(mrg, grid_loops[0], r) for r in rets)
+    stored = sorted({U(n) for n in body_walk(mrg) if isinstance(n, ast.Attribute) and isinstance(n.value, ast.Name) and n.value.id == "self"
+                     and n.attr not in ("_data", "num_rows", "num_cols")})
+    ok = ok and not stored
+    rep.ob("C12.R5", rets[0] if rets else mrg, "Table.merge_ranges: every result is derived from a walk of the grid in the same call", ok,
+           "" if ok else f"a return is reachable without walking self._data (stored state read: {stored}): after rows or columns move, the list no longer follows the rectangles",
+           key="C12.R5@merge_ranges:fresh")
     # set_cell_border uses size[1] for right (columns) and size[0] for bottom (rows)
     scb = U(repo.func("document.py", "Table.set_cell_border")).replace(" ", "")
     ok = "side=='right'andcell.size[1]>1" in scb and "side=='bottom'andcell.size[0]>1" in scb
@@ -286,6 +295,42 @@ def run(repo, rep, tier):
     rep.ob("C12.R3", wr, "merge map written from the anchors and their sizes", ok, "", key="C12.R3@writer:anchors")
     ok = any(isinstance(n, ast.Call) and last_attr(n.func) == "set_reference" and "merge_region_map" in U(n) for n in body_walk(wr))
     rep.ob("C12.R3", wr, "table points at the new merge map", ok, "", key="C12.R3@writer:ref")
+    # the map filled on save is an archive allocated by this very call: add_table()/add_sheet() copy the source table's
+    # base_data_store (and with it the merge_region_map reference), so a map that is looked up and refilled is shared
+    fills = [n for n in body_walk(wr) if isinstance(n, ast.Call) and last_attr(n.func) in ("append", "extend", "add") and "cell_range" in U(n.func)]
+    allocs = [st for st in body_walk(wr) if isinstance(st, ast.Assign) and isinstance(st.value, ast.Call) and last_attr(st.value.func) == "create_object_from_dict"
+              and "MergeRegionMapArchive" in U(st.value)]
+    if not fills:
+        raise AnalysisError("recalculate_merged_cells: fill of cell_range not found")
+    fill_stmt = fills[0]
+    while not isinstance(fill_stmt, ast.stmt):
+        fill_stmt = fill_stmt._parent
+    ok = bool(allocs) and cfgmod.dominates(wr, allocs[0], fill_stmt)
+    if ok:
+        tgt = allocs[0].targets[0]
+        names = [U(e) for e in tgt.elts] if isinstance(tgt, ast.Tuple) else [U(tgt)]
+        recv = U(fills[0].func.value.value) if isinstance(fills[0].func.value, ast.Attribute) else ""
+        rebound = [st for st in body_walk(wr) if isinstance(st, ast.Assign) and st is not allocs[0] and any(U(t) == recv for t in st.targets)]
+        ok = recv in names and not rebound
+    rep.ob("C12.R3", fills[0], "the merge map filled on save is a MergeRegionMapArchive allocated in the same call", ok,
+           "" if ok else "an existing archive is looked up and refilled on some path: tables created by add_table()/add_sheet() copy the source's "
+           "merge_region_map reference, so two tables write their rectangles into one archive and the last saved wins", key="C12.R3@writer:fresh-map")
+    # reader: the region map is read unless the table has none — nothing else may skip it
+    rd_loops = [n for n in body_walk(cm) if isinstance(n, ast.For) and "cell_range" in U(n.iter)]
+    if not rd_loops:
+        raise AnalysisError("calculate_merge_cell_ranges: loop over the merge region map not found")
+    g = cfgmod.build(cm)
+    bad = []
+    for r in [n for n in body_walk(cm) if isinstance(n, ast.Return)]:
+        if r.lineno > rd_loops[0].lineno:
+            continue
+        par = r._parent
+        t = U(par.test).replace(" ", "") if isinstance(par, ast.If) and any(r is x for x in par.body) else None
+        only_absent = t is not None and not isinstance(par.test, ast.BoolOp) and t.endswith("merge_region_map.identifier==0")
+        if not only_absent:
+            bad.append(f"line {r.lineno}: `if {U(par.test) if isinstance(par, ast.If) else '?'}: return`")
+    rep.ob("C12.R3", rd_loops[0], "reader: the merge region map is read whenever the table has one", not bad,
+           "" if not bad else f"{bad}: rectangles saved by the library live only in the region map; skipping it drops them on reopen", key="C12.R3@reader:reached")
     rtd = repo.func("model.py", "_NumbersModel.recalculate_table_data")
     ok = any(isinstance(n, ast.Call) and last_attr(n.func) == "recalculate_merged_cells" for n in body_walk(rtd))
     rep.ob("C12.R3", rtd, "save rewrites the merge map", ok, "", key="C12.R3@save")
@@ -322,6 +367,42 @@ def run(repo, rep, tier):
 
 
 VARIANTS = [
+    M("reader-skips-region-map-when-owner-merges", "model.py", "        if base_data_store.merge_region_map.identifier == 0:\n            return\n\n        cell_ranges =",
+      "        if self._merge_cells[table_id].merge_cells() or base_data_store.merge_region_map.identifier == 0:\n            return\n\n        cell_ranges =", "C12.R3"),
+    M("writer-refills-existing-map", "model.py", """        merge_map_id, merge_map = self.objects.create_object_from_dict(
+            "CalculationEngine",
+            {},
+            TSTArchives.MergeRegionMapArchive,
+        )
+
+        merge_cells = self.merge_cells(table_id)""", """        existing = self.objects[table_id].base_data_store.merge_region_map.identifier
+        if existing == 0:
+            merge_map_id, merge_map = self.objects.create_object_from_dict(
+                "CalculationEngine",
+                {},
+                TSTArchives.MergeRegionMapArchive,
+            )
+        else:
+            merge_map_id, merge_map = existing, self.objects[existing]
+            clear_field_container(merge_map.cell_range)
+
+        merge_cells = self.merge_cells(table_id)""", "C12.R3"),
+    M("merge-ranges-memoised", "document.py", """        merge_cells = set()
+        for row, cells in enumerate(self._data):
+            for col, cell in enumerate(cells):
+                if cell.is_merged:
+                    size = cell.size
+                    merge_cells.add(xl_range(row, col, row + size[0] - 1, col + size[1] - 1))
+        return sorted(merge_cells)""", """        if getattr(self, "_merge_ranges", None) is not None:
+            return list(self._merge_ranges)
+        merge_cells = set()
+        for row, cells in enumerate(self._data):
+            for col, cell in enumerate(cells):
+                if cell.is_merged:
+                    size = cell.size
+                    merge_cells.add(xl_range(row, col, row + size[0] - 1, col + size[1] - 1))
+        self._merge_ranges = sorted(merge_cells)
+        return sorted(merge_cells)""", "C12.R5"),
     M("revert-fix-loops-plus-one", "document.py", "            for row in range(row_start, row_end + 1):\n                for col in range(col_start, col_end + 1):\n                    if (row, col) == (row_start, col_start):",
       "            for row in range(row_start + 1, row_end + 1):\n                for col in range(col_start + 1, col_end + 1):\n                    if (row, col) == (row_start, col_start):", "C12.R1"),
     M("anchor-not-skipped", "document.py", "                    if (row, col) == (row_start, col_start):\n                        continue\n", "", "C12.R1"),
